@@ -441,6 +441,7 @@ func (p *Program) runPipeline(cfg *SolverCfg, tasks []Task) ([]*Oblig, []*Unit) 
 			r = solveFile(c, j.key, j.zf, j.cf)
 		}
 		if c.Confirm && r.status == "unsat" && j.inst.Expect == "" {
+			satBy, satOut, confirmed := "", "", false
 			for _, s := range solverBins {
 				if strings.HasPrefix(r.solver, s.name) {
 					continue
@@ -458,14 +459,21 @@ func (p *Program) runPipeline(cfg *SolverCfg, tasks []Task) ([]*Oblig, []*Unit) 
 				}
 				r2 := runSolver(context.Background(), s.name, s.bin, c.FullTimeout, f)
 				if r2.status == "sat" {
-					r.status = "disagree"
-					r.out += "\n--- " + s.name + " says sat:\n" + r2.out
-					break
+					satBy = s.name
+					satOut = r2.out
+					continue // ask the remaining solver: two against one decides (cvc5 1.0 has answered sat wrongly before)
 				}
 				if r2.status == "unsat" {
 					r.solver += "+" + s.name
+					confirmed = true
 					break
 				}
+			}
+			if satBy != "" && !confirmed {
+				r.status = "disagree"
+				r.out += "\n--- " + satBy + " says sat:\n" + satOut
+			} else if satBy != "" {
+				r.out += "\n--- note: " + satBy + " answered sat on this query; two other solvers prove it"
 			}
 		}
 		j.inst.Status, j.inst.Solver, j.inst.Output = r.status, r.solver, r.out
